@@ -308,6 +308,28 @@ uint8_t *gen_payload(uint8_t stype, uint32_t dsize, uint64_t dseed) {
         b[i] = c;
     }
     if (stype != JLS_STORAGE_TYPE_BINARY && dsize) b[dsize - 1] = 0;
+    if (stype == JLS_STORAGE_TYPE_BINARY && dsize >= 600 && (dseed & 0xFFF) == PAYLOAD_EMBEDS_CHUNKS) {
+        /* a payload that itself holds complete chunk images at 8-byte-aligned positions (a JLS file kept as user data):
+         * three user-data chunks, an END chunk, one more user-data chunk - each with consistent header and payload CRC.
+         * Whoever looks for chunks by scanning bytes finds them; they are payload, not chunks of this file. */
+        uint32_t at = 0;
+        for (int k = 0; k < 5; ++k) {
+            uint8_t h[32]; memset(h, 0, sizeof(h));
+            uint32_t plen = k == 3 ? 0 : 24;
+            h[16] = k == 3 ? JLS_TAG_END : JLS_TAG_USER_DATA;
+            uint16_t cm = k == 3 ? 0 : (uint16_t) ((0x701 + k) | (JLS_STORAGE_TYPE_BINARY << 12));
+            h[18] = (uint8_t) cm; h[19] = (uint8_t) (cm >> 8);
+            memcpy(h + 20, &plen, 4);
+            uint32_t crc = jd_crc32c(h, 28); memcpy(h + 28, &crc, 4);
+            memcpy(b + at, h, 32); at += 32;
+            if (plen) {
+                uint32_t pcrc = jd_crc32c(b + at, plen);
+                memset(b + at + plen, 0, 4);                  /* pad: (24 + 4) % 8 = 4 */
+                memcpy(b + at + plen + 4, &pcrc, 4);
+                at += plen + 8;
+            }
+        }
+    }
     return b;
 }
 
@@ -496,7 +518,7 @@ int32_t exec_op_sync(struct jls_wr_s *wr, const prog_t *p, op_t *o) {
             uint8_t *b = gen_payload(o->stype, o->dsize, o->dseed);
             v_api("jls_wr_annotation");
             /* expect_reject 3 = the caller passes no payload although a size is given */
-            rc = jls_wr_annotation(wr, o->id, o->ts, o->y, o->atype, o->group, o->stype, o->expect_reject == 3 ? NULL : b, o->stype == JLS_STORAGE_TYPE_BINARY ? o->dsize : 0);
+            rc = jls_wr_annotation(wr, o->id, o->ts, o->y, o->atype, o->group, o->stype, o->expect_reject == 3 ? NULL : b, twr_size_arg(o->stype, o->dsize, o->dseed));   /* text: the size argument is ignored, whatever it says */
             free(b);
             break;
         }
@@ -504,7 +526,7 @@ int32_t exec_op_sync(struct jls_wr_s *wr, const prog_t *p, op_t *o) {
         case OP_USER: {
             uint8_t *b = gen_payload(o->stype, o->dsize, o->dseed);
             v_api("jls_wr_user_data");
-            rc = jls_wr_user_data(wr, o->meta, o->stype, o->expect_reject == 3 ? NULL : b, (o->stype == JLS_STORAGE_TYPE_BINARY || o->stype == JLS_STORAGE_TYPE_INVALID) ? o->dsize : 0);
+            rc = jls_wr_user_data(wr, o->meta, o->stype, o->expect_reject == 3 ? NULL : b, (o->stype == JLS_STORAGE_TYPE_BINARY || o->stype == JLS_STORAGE_TYPE_INVALID) ? o->dsize : twr_size_arg(o->stype, o->dsize, o->dseed));   /* text: "ignored" (writer.h) */
             free(b);
             break;
         }
